@@ -223,6 +223,7 @@ Section Wf.
   Hypothesis Weval : forall i k, (forall v, W (k v)) -> W (Eval i k).
   Hypothesis Wsub : forall i a b k, (forall v, W (k v)) -> W (EvalSub i a b k).
   Hypothesis Wfail : forall v, W (Fail v).
+  Hypothesis Werr : forall p, W p -> W (Err p).
   Hypothesis Wlive : forall k, (forall t, W (k t)) -> W (Touch [] (Clock k)).
 
   Lemma W_eval_all is_ : forall k, (forall xs, W (k xs)) -> W (eval_all is_ k).
@@ -245,9 +246,9 @@ Section Wf.
   Lemma W_strcmp_run neg is_ : forall val, W (strcmp_run neg is_ val).
   Proof. induction is_; intros val; simpl; auto. Qed.
   Lemma W_and_run is_ : W (and_run is_).
-  Proof. induction is_; simpl; auto. apply Weval. intros x. destruct (nonemp x); auto. Qed.
+  Proof. induction is_; simpl; auto. apply Weval. intros x. destruct (truthy x); auto. Qed.
   Lemma W_or_run is_ : W (or_run is_).
-  Proof. induction is_; simpl; auto. apply Weval. intros x. destruct (nonemp x); auto. Qed.
+  Proof. induction is_; simpl; auto. apply Weval. intros x. destruct (truthy x); auto. Qed.
   Lemma W_map_sub i items : forall k, (forall ys, W (k ys)) -> W (map_sub i items k).
   Proof. induction items; intros k Hk; simpl; auto. Qed.
   Lemma W_filter_sub i items : forall kept, W (filter_sub i items kept).
@@ -276,6 +277,7 @@ Section Wf.
     | |- W (for_run _ _ _ _ _) => apply W_for_run
     | |- W (Done _) => apply Wdone
     | |- W (Fail _) => apply Wfail
+    | |- W (Err _) => apply Werr
     | |- W (Eval _ _) => apply Weval; intros
     | |- W (EvalSub _ _ _ _) => apply Wsub; intros
     | |- W (Touch [] (Clock _)) => apply Wlive; intros
